@@ -174,6 +174,23 @@ pub(crate) mod verif_probe {
         }
     }
 
+    /// 32 bit test colour (there is no built-in colour with RawU32)
+    #[derive(Copy, Clone, Eq, PartialEq, Debug)]
+    pub struct ColorU32(pub crate::pixelcolor::raw::RawU32);
+    impl PixelColor for ColorU32 {
+        type Raw = crate::pixelcolor::raw::RawU32;
+    }
+    impl From<crate::pixelcolor::raw::RawU32> for ColorU32 {
+        fn from(d: crate::pixelcolor::raw::RawU32) -> Self {
+            Self(d)
+        }
+    }
+    impl From<ColorU32> for crate::pixelcolor::raw::RawU32 {
+        fn from(c: ColorU32) -> Self {
+            c.0
+        }
+    }
+
     /// Colour stream whose k-th item *is* k (as the 24-bit storage value of an Rgb888): generic colour
     /// adapters never inspect items (parametricity), so an output identifies its source index.
     /// `nth` is closed form: the documented Iterator::nth contract.
